@@ -341,6 +341,8 @@ def run(ctx):
     check_validation(ctx, 2)
     check_duration(ctx, 3)
     pool.ob_phases(ctx, 4)
+    from . import c09
+    c09.check_every_pool_ticked(ctx, 4)     # a write-out counts down only in the pool's tick: no pool may be left out
     pool.ob_moves_classified(ctx, 5)
     pool.ob_deltas(ctx, 5)
     c02.check_suffix_slices(ctx, 6)
